@@ -632,6 +632,10 @@ func (r *ruleState) txStep(tr *TxRec, pre, post *tables.Tables) {
 				s.violate("T9.lease_broken", P("C07", "C02"), "task", "task taken from its holder before the lease ended", fmt.Sprintf("clock %d, lease end %d, timeout %d: %s -> %s (by %s)", clock, end, t.Timeout, t, u, tr.Name))
 			}
 		}
+		// a claimed task is claimed again (same counter: T8 has dealt with a changed one) or changes hands
+		if t.State == 4 && u.State == 4 && ((req != nil && req.Req.Kind == t_api.ClaimTask && req.Req.ClaimTask.Id == tid) || !tables.EqS(u.ProcessId, t.ProcessId)) {
+			s.violate("T9.claimed_twice", P("C07", "C02"), "task", "a claimed task was claimed again without a new counter", fmt.Sprintf("clock %d: %s -> %s (by %s)", clock, t, u, tr.Name))
+		}
 		// claims
 		if u.State == 4 && t.State != 4 {
 			if !(t.State == 1 || t.State == 2) {
